@@ -13,7 +13,7 @@ PLAN = {
 DEADLINE = {'quick': 200, 'thorough': 3300}
 PROBES = ['line-reattempted', 'refusal-with-waiters-outstanding', 'tracker-interleaved-drain',
           'tracker-repeated-meet', 'cycle-or-selfref', 'resume-asked-less']
-ORACLES = {'H3a', 'H4', 'H5b', 'H5n', 'H5c', 'T0', 'T1', 'T2', 'C06.lost'}
+ORACLES = {'P1', 'H3a', 'H4', 'H5b', 'H5n', 'H5c', 'T0', 'T1', 'T2', 'C06.lost'}
 ASSUMPTIONS = [
     '"small constant" is taken as 3: evals(L) <= 3 + number of distinct inputs/lines/foreign input specs L had to wait for '
     '(doubled when the *caller* queued a line twice)',
@@ -28,10 +28,17 @@ RULE = ('(a) generated form programs incl. cycles, self-references, unknown name
         'distinct (world, schedule) / history digests')
 
 
+_TERM = [0]
+
+
 def eval_synth(case, acc=None):
+    if acc is not None and _TERM[0] >= 2:
+        acc.count('skipped-after-nontermination')
+        return []
     try:
         run = simrun.execute(case)
     except (core.RunTimeout, core.BudgetExceeded) as e:
+        _TERM[0] += 1
         return [simrun.F(ID, 'C06.term', 'no-termination', f'solve did not finish: {type(e).__name__} {e}')]
     r1 = simrun.model_for(case, run)
     fs = [f for f in simrun.judge(case, run, r1) if f['oracle'] in ORACLES]
@@ -56,6 +63,9 @@ def eval_resume(case, acc=None):
     """bounded liveness once faults stop: interrupted session(s), then one fault-free session,
     must ask only not-yet-answered inputs and end in the state of an uninterrupted session."""
     fs = []
+    if acc is not None and _TERM[0] >= 2:
+        acc.count('skipped-after-nontermination')
+        return []
     try:
         ref = simrun.execute(case, prompt=True, refuse_at=None)
         cur_names = list(case['file'])
@@ -73,6 +83,7 @@ def eval_resume(case, acc=None):
                 break
         fin = simrun.execute(case, names=cur_names, prompt=True, refuse_at=None)
     except (core.RunTimeout, core.BudgetExceeded) as e:
+        _TERM[0] += 1
         return [simrun.F(ID, 'C06.term', 'no-termination', f'solve did not finish: {type(e).__name__} {e}')]
     again = sorted(set(fin.monitor.prompted) & set(answered_all))
     if again:
